@@ -28,8 +28,10 @@ def FactsOK : Bool :=
   C26.flakyCond == "(len(C.Failures()) > 0 || len(C.Errors()) > 0) && C.Skip() == nil && C.Success() != nil" &&
   C26.allSucceededCond == "C.Skip() == nil && C.Success() == nil => return false; return true" &&
   C26.testsExpr == "return len(testSuite.TestCases)" &&
-  C26.matchCond == "OLD.ClassName == NEW.ClassName && OLD.Name == NEW.Name" &&
-  C26.addShape == "idx >= 0 ? append-executions : append-case" &&
+  -- Add: an incoming case is the same as an existing one iff class name AND name are equal, compared separately
+  -- (a concatenated key would identify ("a.b","c") with ("a","b.c")); then append executions, else append the case
+  C26.addMatchKind == "separate" && C26.addMatchFields == ["ClassName", "Name"] &&
+  C26.addShape == "found ? append-executions : append-case" &&
   C26.flakeLoopInit == "I := 1" && C26.flakeLoopCond == "I <= FLAKINESS" && C26.flakeLoopPost == "I++" &&
   C26.flakeLoopSteps == ["run", "add:RUN.TestCases...)", "break-if:RUN.TestCases.AllSucceeded()"] &&
   C26.appendChain == ["test.Failure != nil:appendFailure", "test.Error != nil:appendError",
@@ -183,6 +185,25 @@ theorem C26_passes_iff (n : Nat) (runs : List (List Case)) :
       obtain ⟨c, hc, rfl⟩ := hkr
       obtain ⟨r', hr', c', hc', hkey, e, he, hok⟩ := h r hr c hc
       exact ⟨e, (foldl_addAll_has _ [] _ e).mpr (Or.inr ⟨r', hr', c', hc', hkey, he⟩), by simpa [Exec.ok] using hok⟩
+
+/-- `Add` keys on the pair: two cases whose class name / name are different splits of the same dotted string
+    stay two cases (a failing one cannot be absorbed by a passing one). -/
+theorem C26_add_keeps_resplit_cases_apart :
+    allSucceeded (addAll [] [⟨"com.acme.Parser", "v2.roundtrip", [Exec.fail]⟩, ⟨"com.acme.Parser.v2", "roundtrip", [Exec.pass]⟩]) = false := by
+  decide
+
+/-- In general: cases with different (name, class name) pairs are never merged by `Add`. -/
+theorem C26_add_distinct_keys (l : List Case) (c : Case) (h : c.key ∉ keys l) : add1 l c = l ++ [c] := by
+  induction l with
+  | nil => rfl
+  | cons x xs ih =>
+    have hx : ¬ x.key = c.key := fun e => h (by simp [keys, e])
+    have hs : sameKey x c = false := by
+      cases hsk : sameKey x c
+      · rfl
+      · exact absurd ((sameKey_iff x c).mp hsk) hx
+    simp only [add1, hs, Bool.false_eq_true, if_false, List.cons_append]
+    rw [ih (fun hm => h (by simp only [keys, List.map_cons, List.mem_cons]; exact Or.inr hm))]
 
 -- non-vacuity: A fails then passes, B passes then fails; neither run succeeded on its own, the target passes
 example : allSucceeded (flakeLoop 2 [[⟨"", "A", [Exec.fail]⟩, ⟨"", "B", [Exec.pass]⟩],
